@@ -11,9 +11,11 @@ subclasses TextXSyntaxError/TextXSemanticError; the check accepts any TextXError
 conforming code).
 """
 
+import os
 import re
 
 from mc import refpeg, gramgen
+from mc import core
 from mc.core import Unit, watchdog, CaseTimeout
 
 ID = "C23"
@@ -102,10 +104,45 @@ def mutations(text):
             yield "boolasg-twice@%d" % i, J(toks[:i + 2] + [toks[i - 1], "?=", "'z'"] + toks[i + 2:])
 
 
-def outcome(text):
-    from textx import metamodel_from_str
+def option_sets():
+    """documented keyword arguments of metamodel_from_str that take part in compiling the grammar; built anew for every call"""
+    import io
+    import os
+
+    def named(n):
+        return type(n, (), {"__init__": lambda self, **kw: None})
+
+    def closed_then_fresh():
+        # history: a meta-model was built with debug output going to a file that is closed by now
+        from textx import metamodel_from_str
+
+        devnull = open(os.devnull, "w")
+        metamodel_from_str("First: 'x';", debug=True, file=devnull)
+        devnull.close()
+        return {"debug": True, "file": io.StringIO()}
+    return {
+        "classes-callable-same-name": lambda: {"classes": lambda n: named(n) if n in ("Model", "A", "M") else None},
+        "classes-callable-other-name": lambda: {"classes": lambda n: named("My" + n) if n in ("Model", "A", "M") else None},
+        "classes-list-unused": lambda: {"classes": [named("NotARule")]},
+        "classes-list-builtin-name": lambda: {"classes": [named("ID"), named("Model")]},
+        "builtins-and-repo": lambda: {"builtins": {"x": 1}, "global_repository": True, "textx_tools_support": True},
+        "debug-after-closed-file": closed_then_fresh,
+    }
+
+
+def outcome(text, opt=None):
+    from textx import metamodel_from_str as _mfs
     from textx.exceptions import TextXError
 
+    def metamodel_from_str(t):
+        if opt is None:
+            return _mfs(t)
+        cwd = os.getcwd()
+        os.chdir(core.rundir())  # debug=True writes dot files into the working directory
+        try:
+            return _mfs(t, **option_sets()[opt]())
+        finally:
+            os.chdir(cwd)
     try:
         with watchdog(5):
             metamodel_from_str(text)
@@ -150,6 +187,21 @@ def work(arg):
     return u
 
 
+OPTION_BASES = ["Model: points+=A; A: x=INT ',' y=INT;", "M: a=A | b=B; A: B | 'a' name=ID; B: 'b' v=INT;", "Model: 'only';", "Model: x=Nope;", "Model: 'a'"]
+
+
+def work_options(arg):
+    u = Unit()
+    for text, opt in arg:
+        kind, info = outcome(text, opt)
+        cid = ["options", opt, text]
+        u.case(cid, nontrivial=True, sample={"options": opt, "grammar": text, "outcome": [kind, info]})
+        u.count("options:%s:%s" % (opt, kind if kind != "textx" else info))
+        if kind == "BAD":
+            u.fail(cid, {"grammar": text, "opt": opt}, sig="options %s -> %s" % (opt, info.split(":")[0]), what="options %s: %r -> %s" % (opt, text, info))
+    return u
+
+
 def bases(tier):
     out = list(HAND)
     out += ["", "  \n", "// only a comment\n", "/* block */", "A", "A:", "A: ;", ";", "A: 'a'", "A: 'a';;"]
@@ -168,6 +220,8 @@ def bases(tier):
 def run(ctx):
     bs = bases(ctx.tier)
     ctx.pmap(work, [bs[i:i + 4] for i in range(0, len(bs), 4)])
+    oc = [(t, o) for o in option_sets() for t in OPTION_BASES]
+    ctx.pmap(work_options, [oc[i:i + 5] for i in range(0, len(oc), 5)])
     return {
         "rule": "case = one grammar text; bases = %d valid grammars (hand-written full-syntax grammars, generated F-expr and F-rules grammars, degenerate texts); "
                 "every mutation operator is applied at every token position where it is applicable; non-trivial = the text is refused" % len(bs),
@@ -176,5 +230,5 @@ def run(ctx):
 
 
 def replay(p):
-    kind, info = outcome(p["grammar"])
+    kind, info = outcome(p["grammar"], p.get("opt"))
     return kind != "BAD", {"grammar": p["grammar"], "outcome": [kind, info]}
